@@ -64,7 +64,18 @@ def run(steps, numba):
     return res
 
 
+def run_same_call(steps, numba):
+    """All steps as summaries of ONE aggregate call (compile order = keyword order within the call)."""
+    di.USE_NUMBA = numba
+    try:
+        out = data.group_by("g").aggregate(**{f"y{i}": H[h](c) for i, (h, c) in enumerate(steps)})
+        return [show(out[f"y{i}"]) for i in range(len(steps))]
+    except Exception as e:
+        return [["EXC", type(e).__name__ + ": " + str(e)[:120]] for _ in steps]
+
+
 steps = json.loads(sys.argv[1])
-got = run(steps, True)
-exp = run(steps, False)
+same_call = len(sys.argv) > 2 and sys.argv[2] == "call"
+got = run_same_call(steps, True) if same_call else run(steps, True)
+exp = run_same_call(steps, False) if same_call else run(steps, False)
 print(json.dumps({"got": got, "exp": exp}))
